@@ -385,6 +385,13 @@ theorem C04_qualifier_lookup_sound (s : Schema) (name : String) (fuel : Nat) (en
     (h : isAncestor s name fuel en = true) : Reach (superGraph s) en name :=
   isAncestor_sound s name fuel en h
 
+/-- **with the fuel the passes use the qualifier look-up IS reachability**: `SELF\name.attr` (redeclaration, qualified UNIQUE reference)
+    passes the ancestor test ⇔ `name` is reachable from the entity through one or more `SUBTYPE OF` edges — cyclic supertypes included
+    (a repetition-free chain has at most as many edges as there are entities) -/
+theorem C04_qualifier_lookup_iff_reach (s : Schema) (name en : String) :
+    isAncestor s name (s.decls.length + 1) en = true ↔ Reach (superGraph s) en name :=
+  isAncestor_iff_reach s name en
+
 /-- **overloaded attribute, stated without the look-up function**: `ENTITYresolve_expressions` reports OVERLOADED_ATTR for `e` ⇔ some new
     (not redeclared) attribute of `e` has a second declaration in a direct supertype or in an entity reachable from one through
     `SUBTYPE OF` — two distinct reachable declarations of one name.  (The look-up is the marked search the code uses since C06-17; it
